@@ -23,7 +23,7 @@ PATCHED_STRING_SPACE = False
 # docs/C07_valfmt_query.diff: mpt_convert_string(text, TypeValFmt, 0) stores through the null destination.
 #   False: the generator asks for a value format only WITH a destination (cases "ts 24 1 ...").
 #   True:  it also asks without one (cases "ts 24 0 ...": same answer as performing, no fault).
-PATCHED_VALFMT_QUERY = False
+PATCHED_VALFMT_QUERY = True
 
 KNOWN_LOCAL = [{
     "kind": "known", "property": "C07", "match": "convert_string_space_only",
@@ -138,24 +138,39 @@ class C07(DiffProperty):
 
     rule = ("a case line = one entry point (D: mpt_data_convert_<src>, V: mpt_value_convert, C: mpt_iterator_consume, P: mpt_data_converter, "
             "ti/tu: _mpt_convert_int/_uint, tw: mpt_c<type> wrappers with range, tn: mpt_convert_number, ts: mpt_convert_string, tf: mpt_cfloat/"
-            "cdouble/cldouble) + target type + destination yes/no + a batch of source values or texts; every value/text is one conversion. "
+            "cdouble/cldouble with or without the optional range; I: mpt_iterator_consume on an iterator without value / whose advance fails / type 0 = skip; "
+            "W: mpt_value_convert on a source that is no number: string pointer, char/int/generic vectors, unknown and private type codes, value format, "
+            "identifier, stub convertable / metatype pointer / metatype reference incl. null pointers; T: mpt_type_traits) + target type + destination "
+            "yes/no + a batch of source values, texts or target codes; every value/text/code is one conversion. "
             "Quick: EVERY value of the 8 and 16 bit source types x 13 scalar targets ('c','l', integers, floats) + 9 odd type codes x with/without "
             "destination through the direct converters, every 8 bit value and boundary sets through value_convert/iterator_consume; for 32/64 bit and "
-            "float sources the +-2 neighbourhood of every target limit, 2^k+-1 and random values; numerals from a grammar (white space x sign x "
-            "0x/0X/0 prefix x magnitudes around every limit, above 2^64 x trailing text; malformed pieces; NULL) x bases x all targets. "
-            "A case line batches up to 512 conversions (quick tier: about 7.3 million conversions in about 14 900 lines), each compared token by token. "
+            "float sources the +-2 neighbourhood of every target limit, 2^k+-1 and random values (float sources also through value_convert / "
+            "iterator_consume); 12 source types x 18 targets x 4 iterator behaviours; 26 non-number source kinds x 55 target codes; numerals from a grammar "
+            "(white space x sign x 0x/0X/0 prefix x magnitudes around every limit, above 2^64 x trailing text; malformed pieces; NULL) x bases x all targets "
+            "incl. the non-numeric branches of mpt_convert_string (type 0, 'k', char vector, 's', TypeValFmt); float texts x 15 ranges (finite, infinite, "
+            "empty, NaN bounds) per floating type. "
+            "A case line batches up to 512 conversions (quick tier: about 7.35 million conversions in about 16 900 lines), each compared token by token. "
             "non-trivial = every case (each line holds in-range and out-of-range sources); distinct = distinct case text")
     modelled = ("mptcore/convert/{data_convert_int,data_convert_float,value_convert,data_converter,convert_int,convert_number,convert_string,"
-                "cdouble,cfloat,cldouble}.c and types/iterator_consume.c transcribed in coq/C07/ConvModel.v and ConvFloat.v (float sources, dyadic); libc strtoimax/strtoumax "
+                "cdouble,cfloat,cldouble}.c and types/iterator_consume.c transcribed in coq/C07/ConvModel.v, ConvFloat.v (float sources, dyadic) and ConvDispatch.v "
+                "(mpt_value_convert for every source type code with the traits table it consults, float sources behind it, _mpt_convertable_wrap / "
+                "_mpt_metatype_wrap, mpt_iterator_consume with empty / failing iterators and type 0, every branch of mpt_convert_string incl. "
+                "mpt_convert_key without separators, the optional range of mpt_cfloat/cdouble/cldouble); libc strtoimax/strtoumax "
                 "modelled (glibc 2.36); strtof/strtod/strtold are an oracle whose answer (end pointer, errno == ERANGE, value) is part of the case and re-checked by the harness; "
-                "the library's own tests on that answer (ERANGE && (+HUGE_VAL || -HUGE_VAL), end == src, white space) are transcribed; isgraph/isspace as ASCII tables ('C' locale); "
-                "non-scalar branches of mpt_convert_string (type 0, 'k', 's', char vector, value format), the optional range argument of mpt_cfloat/cdouble/cldouble "
-                "and the interface/array converters are not modelled")
-    trusted = ["harness/c07_conv.c reads the destination back as the target type from an exact-size heap block pre-filled with 0xA5/0x5A",
+                "the library's own tests on that answer (ERANGE && (+HUGE_VAL || -HUGE_VAL), end == src, white space, range[0] > tmp || tmp > range[1]) are transcribed; "
+                "isgraph/isspace as ASCII tables ('C' locale); "
+                "NOT modelled, executed and compared with the specification only: mpt_valfmt_get behind mpt_convert_string(.., TypeValFmt, ..) (no fault; asking without "
+                "destination = performing, once docs/C07_valfmt_query.diff is committed); the objects behind convertable / metatype sources are harness stubs "
+                "(answer 'i' with 77); mpt_data_convert_array (TypeArray / TypeBufferPtr sources) and mpt_data_tostring for arrays are not driven here (C04/C15); "
+                "a value without address (value._addr == 0) is outside the contract (the dispatcher copies from it)")
+    trusted = ["harness/c07_conv.c reads the destination back as the target type from an exact-size heap block pre-filled with 0xA5/0x5A "
+               "(W cases: 64 bytes, two runs with different fill tell exactly which bytes were written; the harness names what they are: the source's bytes, "
+               "{source address, length}, the text pointer, the stub's answer)",
+               "the iterator, convertable and metatype objects of the I and W cases are harness stubs that count their calls",
                "libc strtof/strtod/strtold (value, consumed length, ERANGE) are an oracle; the host FPU's conversions (cvtsd2ss, fld/fstp, cvtsi2ss/sd, fild) are assumed IEEE-754 "
                "round-to-nearest-even and are compared bit by bit with the model (proved to be Flocq's round ... ZnearestE) in every run; 'C' locale",
                "LP64: long = int64, char signed, long double = x87 80 bit in 16 bytes",
-               "axioms (none declared here; Print Assumptions of the 7 theorems about real numbers): ClassicalDedekindReals.sig_forall_dec, ClassicalDedekindReals.sig_not_dec, "
+               "axioms (none declared here; Print Assumptions of the 9 theorems about real numbers): ClassicalDedekindReals.sig_forall_dec, ClassicalDedekindReals.sig_not_dec, "
                "FunctionalExtensionality.functional_extensionality_dep (Coq.Reals) and Classical_Prop.classic (used by Flocq's mag); Flocq 4 (Core) as installed under coq/user-contrib; "
                "props/c07.py fails the proof step if any other axiom appears"]
     axioms_allowed = AXIOMS_ALLOWED
@@ -175,13 +190,28 @@ class C07(DiffProperty):
                   "(C07_float_int_never_offered: always BadType, no truncation exists); text -> float: libc is an oracle, the library's logic around it is proved "
                   "(C07_text_float_cases/_accepts/_string_accepts: success only with libc's own consumed length and value; _overflow_refused/_badvalue_only_overflow: "
                   "ERANGE with +HUGE_VAL or -HUGE_VAL refused, nothing else; _query_same); "
+                  "the layers around the converters (22 theorems C07_dispatch_*, C07_iterator_*, C07_convert_string_*, C07_text_float_range_*): with a numeric target "
+                  "mpt_value_convert, for EVERY source type code, refuses unless the source type's own converter wrote or a value of the very same type is copied with "
+                  "exactly sizeof(target) bytes (C07_dispatch_number_target, _foreign_source_refused, _raw_copy_same_type); the function of the value_convert theorems is that "
+                  "skeleton around the eight switches (C07_dispatch_is_value_convert) and float sources behind it behave as the float converters (C07_dispatch_float_source); "
+                  "mpt_iterator_consume with ANY iterator writes only after conversion AND advance succeeded, exactly sizeof(target) bytes, errors leave the destination alone, "
+                  "query = perform (C07_iterator_writes_only_after_advance, _error_leaves_destination, _query_same, _is_consume); every numeric type code of "
+                  "mpt_convert_string reaches the number branch, the text theorems hold for the function as it is and as patched, and the patched function never reports "
+                  "consumed characters without a stored value (C07_convert_string_every_numeric_code, _exact_patched_or_not, _float_patched_or_not, "
+                  "_patched_always_stores, _patch_changes_only_zero, _key_inside_text); the optional float range: accepted => not below / above the bounds and all unranged "
+                  "guarantees, outside => BadValue, query = perform, and the comparison is the order of the real numbers denoted "
+                  "(C07_text_float_range_accepts/_refuses/_query_same, REAL C07_float_gt_is_real_order, C07_text_float_range_is_real_interval); "
                   "the model is tied to the code on every run by differential execution (exhaustive for 8/16 bit sources) under ASan/UBSan")
     level_note = ("trusted: Coq kernel; hand transcription of the converters (validated by the correspondence run, not verified); extraction and OCaml driver; "
                   "harness; that the FPU implements IEEE-754 round-to-nearest-even (the proved model is compared bit by bit with the hardware in every run, incl. "
                   "subnormals, ties, overflow boundary; NaN only as a class, payloads not modelled); libc float parsing stays an oracle: that strtof/strtod/strtold return the "
-                  "correctly rounded value of the characters they consume is NOT proved (only the library's use of their answer is), nor is the optional range argument of "
-                  "mpt_cfloat/cdouble/cldouble modelled; text -> 'c' and query = perform for mpt_value_convert are correspondence/executable-spec only. "
-                  "29 theorems are closed under the global context; the 7 theorems that mention real numbers (Flocq's round) depend on the standard-library axioms "
+                  "correctly rounded value of the characters they consume is NOT proved (only the library's use of their answer is, incl. the optional range argument); "
+                  "a NaN value passes any range (C comparison, observation in docs/notes_C07.md); text -> 'c' and query = perform for mpt_value_convert are "
+                  "correspondence/executable-spec only; mpt_valfmt_get and the objects behind interface sources are executed, not modelled (specification-level comparison: no fault, "
+                  "query = perform); the traits table of ConvDispatch.v is compared with mpt_type_traits on every run (T case), not proved. "
+                  "Open patches (switches in props/c07.py, both False): docs/C07_convert_string_space.diff (PATCHED_STRING_SPACE), docs/C07_valfmt_query.diff "
+                  "(PATCHED_VALFMT_QUERY: until committed the generator asks for a value format only with a destination). "
+                  "49 theorems are closed under the global context; the 9 theorems that mention real numbers (Flocq's round) depend on the standard-library axioms "
                   "ClassicalDedekindReals.sig_forall_dec, ClassicalDedekindReals.sig_not_dec, FunctionalExtensionality.functional_extensionality_dep and Classical_Prop.classic "
                   "(no axiom is declared by this development; the Z-only theorem C07_float_round_nearest_even_Z states nearest-even without them). "
                   "Known finding left in the code: mpt_convert_string on white-space-only text reports consumed characters without converting.")
@@ -217,7 +247,8 @@ class C07(DiffProperty):
         if not tok:
             return tok
         if tok[0] == "R":
-            return "R"
+            # a refusal that wrote the destination all the same (I, W and string cases report it) is no refusal
+            return "R!written" if "!written" in tok else "R"
         if tok[0] in "kq" and tok != "k" and tok != "q":
             # mpt_value_convert / mpt_iterator_consume return a path code, not a size
             rest = tok[1:]
